@@ -201,6 +201,12 @@ impl Sched {
         }
     }
 
+    /// threads currently marked as blocked in a native call
+    pub fn blocked_threads(&self) -> Vec<usize> {
+        let g = self.sh.0.lock().unwrap_or_else(|e| e.into_inner());
+        g.threads.iter().enumerate().filter(|(_, t)| t.status == Status::Blocked).map(|(i, _)| i).collect()
+    }
+
     pub fn all_finished(&self) -> bool {
         let g = self.sh.0.lock().unwrap_or_else(|e| e.into_inner());
         g.threads.iter().all(|t| t.status == Status::Finished)
